@@ -363,6 +363,15 @@ func genInputs(kind string, seed int64, n int) []N {
 		add("x := 0\nfor ; x < 3; {\nx++\n}")
 		add("for x := 0; ; x++ {\nbreak\n}")
 		add("for ; ; {\nbreak\n}")
+		// nesting far beyond what the Go stack holds at about 1 kB per level: refused, never a fatal stack overflow
+		for _, d := range []int{1000000} {
+			add(strings.Repeat("(", d))
+			add(strings.Repeat("(", d) + "1" + strings.Repeat(")", d))
+			add(strings.Repeat("[", d))
+			add(strings.Repeat("!", d) + "true")
+			add(strings.Repeat("-", d) + "1")
+			add(strings.Repeat("if true { ", d/3) + "1" + strings.Repeat(" }", d/3))
+		}
 		for _, d := range []int{10, 1000, 5000} {
 			add(strings.Repeat("(", d) + "1" + strings.Repeat(")", d))
 			add(strings.Repeat("[", d) + "1" + strings.Repeat("]", d))
